@@ -2,10 +2,12 @@ import Driver.Common
 import Driver.Ring
 import Driver.Mixer
 import Driver.Xbin
+import Driver.Errs
 
 def main (args : List String) : IO UInt32 := do
   match args with
   | ["ring"] => Drv.run DrvRing.comp
   | ["mixer"] => Drv.run DrvMixer.comp
   | ["xbin"] => Drv.run DrvXbin.comp
+  | ["errs"] => Drv.run DrvErrs.comp
   | _ => IO.eprintln "usage: driver <component>"; return 2
